@@ -271,6 +271,20 @@ def _bval(n, env, lets, depth=0):
     if k == "bin" and n["op"] in ("&&", "||"):
         a, b = _bval(n["l"], env, lets, depth + 1), _bval(n["r"], env, lets, depth + 1)
         return (a and b) if n["op"] == "&&" else (a or b)
+    if k == "bin" and n["op"] in ("==", "!=") and env.get("__str__") is not None:
+        # string equality: a local bound to a string in env["__str__"], or a string literal
+        def sval(e_):
+            e_ = hirq.strip(e_)
+            while e_.get("k") in ("ref", "un") or (e_.get("k") == "mcall" and e_["m"] in ("as_str", "as_ref", "to_string", "clone", "to_owned")):
+                e_ = hirq.strip(e_.get("e") or e_.get("recv"))
+            if e_.get("k") == "lit" and "str" in e_["v"]:
+                return e_["v"]["str"]
+            if e_.get("k") == "path" and e_["res"].get("local") in env["__str__"]:
+                return env["__str__"][e_["res"]["local"]]
+            return None
+        sa, sb = sval(n["l"]), sval(n["r"])
+        if sa is not None and sb is not None:
+            return (sa == sb) if n["op"] == "==" else (sa != sb)
     if k == "bin" and n["op"] in ("<", "<=", ">", ">=", "==", "!="):
         a, b = _ival(n["l"], env, lets, depth + 1), _ival(n["r"], env, lets, depth + 1)
         return {"<": a < b, "<=": a <= b, ">": a > b, ">=": a >= b, "==": a == b, "!=": a != b}[n["op"]]
@@ -764,6 +778,7 @@ def run(ctx):
 
     _attr_layout_rule(ctx, mpq)
     _attr_maintenance_rule(ctx, mpq)
+    _independent_verifications_rule(ctx, prog)
 
 
 def _attr_layout_rule(ctx, mpq):
@@ -850,6 +865,31 @@ def _attr_maintenance_rule(ctx, mpq):
                 "a replaced file gets the checksum of its old content, a newly added one 0: the (attributes) of an intact, library-modified archive no longer verify")
     else:
         ctx.ok(R, {"reads_through_view": [hirq.render(x)[:50] for x in reads]})
+    # every block written in the session gets its checksums recorded, the listfile included (it is rewritten on every add); only
+    # the attributes file itself is left out — decided by evaluating the guard of the recording for three kinds of name
+    af = next((x for x in mpq.fn_list if x.hir and x.kind != "Closure" and norm(x.path).endswith("modification::MutableArchive::add_file_data")), None)
+    if af is not None:
+        ctx.saw_fn(af)
+        ab = af.hir["body"]
+        alets = {l["pat"]["name"]: l["init"] for l in hirq.find(ab, "let") if l["pat"].get("k") == "bind" and l.get("init") is not None}
+        rec = [n_ for n_ in hirq.find(ab, "if") if any(x.get("k") == "mcall" and x["m"] == "insert" and "modified_blocks" in hirq.render(x.get("recv")) for x in hirq.walk(n_["then"]))]
+        ins_anywhere = any(x.get("k") == "mcall" and x["m"] == "insert" and "modified_blocks" in hirq.render(x.get("recv")) for x in hirq.walk(ab))
+        if not ins_anywhere:
+            ctx.bad(R, "add_file_data|no-recording", af.where, "written blocks are no longer recorded for the attributes update", "no checksum of this session's files reaches (attributes)")
+        elif rec:
+            pn = [b for p_ in af.hir["params"] for b in hirq.pat_binds(p_)]
+            nm_p = next((p_ for p_ in pn if "name" in p_), None)
+            try:
+                tab = {nm: _bval(rec[0]["c"], {"__str__": {nm_p: nm, "archive_name": nm}}, alets) for nm in ("(attributes)", "(listfile)", "data\\file.txt")}
+                if tab == {"(attributes)": False, "(listfile)": True, "data\\file.txt": True}:
+                    ctx.ok(R, {"recording_guard": hirq.render(rec[0]["c"])[:60], "table": tab})
+                else:
+                    ctx.bad(R, "add_file_data|recording-guard", "%s:%d" % (af.file, rec[0].get("ln") or 0), "checksums of a written block are recorded under `%s`: %s" % (hirq.render(rec[0]["c"])[:50], tab),
+                            "a block rewritten in this session (the listfile is, on every add / rename / remove) keeps its pre-session CRC32 / MD5 in (attributes): the intact archive fails verification of that file")
+            except _NoEval as e:
+                ctx.bad(R, "add_file_data|guard-not-evaluable", "%s:%d" % (af.file, rec[0].get("ln") or 0), "recording guard not evaluable: %s" % e, "shape changed")
+        else:
+            ctx.ok(R, {"recording": "unconditional"})
     parses = [x for x in hirq.walk(body) if x.get("k") == "call" and (x.get("fn") or "").endswith("Attributes::parse") and len(x.get("args") or []) >= 2]
     if not parses:
         ctx.bad(R, "update_attributes|no-parse", f.where, "the stored (attributes) file is no longer parsed", "unmodified files lose their stored checksums")
@@ -905,4 +945,39 @@ def exec_lets(block, env, skip=()):
         return val(tail, env)
     except _NoEval:
         return None
+
+
+
+def _independent_verifications_rule(ctx, prog):
+    """SFileVerifyFile / SFileVerifyArchive run one section per requested kind of check (sector CRC, file CRC32, file MD5).  Whether
+    a section runs depends on the request (verify_flags) and on what the file carries — never on whether another section has run
+    or succeeded: a 32-bit CRC that matches says nothing about the MD5"""
+    R = ctx.rule("C10.requested-verifications-are-independent", "in verify_file_in_archive the guard of each SFILE_VERIFY_* section reads no local that is assigned anywhere in the function", floor=3)
+    try:
+        st = prog.crate("storm")
+    except Exception:
+        ctx.bad(R, "storm|missing", "-", "storm-ffi crate facts not found", "anchor gone")
+        return
+    f = next((x for x in st.fn_list if x.hir and x.kind != "Closure" and x.path.endswith("verify_file_in_archive")), None)
+    if f is None:
+        ctx.bad(R, "verify_file_in_archive|missing", "-", "function not found", "anchor gone")
+        return
+    ctx.saw_fn(f)
+    body = f.hir["body"]
+    assigned = {hirq.strip(a["l"])["res"].get("local") for a in hirq.walk(body) if a.get("k") in ("assign", "assignop") and hirq.strip(a["l"]).get("k") == "path"}
+    n_sec = 0
+    for n_ in hirq.find(body, "if"):
+        c_ = hirq.render(n_["c"])
+        if not re.search(r"SFILE_VERIFY_\w+", c_):
+            continue
+        n_sec += 1
+        dep = sorted({y["res"]["local"] for y in hirq.walk(n_["c"]) if y.get("k") == "path" and y["res"].get("local") in assigned})
+        sec = re.search(r"SFILE_VERIFY_(\w+)", c_).group(1)
+        if dep:
+            ctx.bad(R, "verify_file_in_archive|%s|depends-on-%s" % (sec, dep[0]), "%s:%d" % (f.file, n_.get("ln") or 0), "the %s section runs under `%s`, which reads `%s` — a flag set by another section" % (sec, c_[:70], dep[0]),
+                    "when both checks are requested the stronger one is skipped once the weaker one passed: an alteration that preserves the CRC32 is reported as verified")
+        else:
+            ctx.ok(R, {"section": sec, "guard": c_[:70]})
+    if n_sec == 0:
+        ctx.bad(R, "verify_file_in_archive|no-sections", f.where, "no SFILE_VERIFY_* guarded section found", "shape changed")
 
